@@ -169,7 +169,7 @@ deriving DecidableEq, Repr, Inhabited
 inductive ReqKind | apply | map
 deriving DecidableEq, Repr, Inhabited
 
-inductive MFrame | notStarted | waitMapSem | waitRoom | done
+inductive MFrame | notStarted | waitMapSem | waitRoom | running | done
 deriving DecidableEq, Repr, Inhabited
 
 /-- a request together with its spawner ("meta") task -/
@@ -185,6 +185,7 @@ structure Req where
   remaining  : Nat                 -- apply: invocations still to start
   items      : List Item           -- map: elements not yet pulled
   mapSem     : Sem
+  nc         : Nat                 -- ghost: `num_concurrent`, the initial value of `mapSem`
   acquired   : Bool                -- map: `semaphore_acquired`
   pulled     : Nat
   created    : Nat
